@@ -48,10 +48,12 @@ def make(cls, beh, variant=""):
     return img
 
 
-def _call(img, op, args, exp, order=None):
+def _call(img, op, args, exp, order=None, **extra):
     import menpo.transform as mt
 
-    kw = {} if order is None else {"order": order}
+    kw = dict(extra)
+    if order is not None:
+        kw["order"] = order
 
     if op == "rescale":
         s, m = args
@@ -168,6 +170,21 @@ def replay_one(cls, beh, variant=""):
                     return tag + ": with interpolation order %d a channel of a multi-channel image is not what the same channel gives alone" % order
                 if not L.close(full.landmarks["lm"].points, res.landmarks["lm"].points, 1e-12):
                     return tag + ": the interpolation order changes where the landmarks go"
+        if cls == "Image" and not variant and op in ("warp", "rotate", "about"):
+            # options that must not move anything: the batch size of the sampler; the fill value (valid pixels unchanged,
+            # pixels sampled clearly outside the source take it)
+            if op == "warp":
+                rb, _ = _call(img, op, args, exp, batch_size=5)
+                if not np.array_equal(rb.pixels, res.pixels) or not np.array_equal(rb.landmarks["lm"].points, res.landmarks["lm"].points):
+                    return tag + ": warping with batch_size=5 gives another image than warping in one go"
+            rc, _ = _call(img, op, args, exp, cval=7.0)
+            vv = np.array(exp["valid"], dtype=bool)
+            if rc.pixels.shape != res.pixels.shape or not np.array_equal(rc.pixels[:, vv], res.pixels[:, vv]):
+                return tag + ": the fill value changes pixels that were sampled inside the source"
+            if all(all(x == 1 for x in row) for row in beh["mask0"]):
+                outside = np.array(exp["mask"], dtype=int) == 0
+                if outside.any() and not np.array_equal(rc.pixels[:, outside], np.full((nch, int(outside.sum())), 7.0)):
+                    return tag + ": pixels sampled outside the source do not take the fill value"
         want_cls = type(img).__name__ if not (op == "warp_mask" and cls == "Image") else "MaskedImage"
         if type(res).__name__ != want_cls:
             return tag + ": result class " + type(res).__name__
